@@ -102,7 +102,12 @@ func (s *coordinatorState) handleRecentOrCatchupResult(res result) {
 
 	// update failed heights
 	for h := range res.failed {
-		nextRetry, _ := s.retryStrategy.nextRetry(retryAttempt{}, time.Now())
+		// keep the attempt count of a height that has already failed before
+		last := s.failed[h]
+		if r, ok := s.inRetry[h]; ok && r.count > last.count {
+			last = r
+		}
+		nextRetry, _ := s.retryStrategy.nextRetry(last, time.Now())
 		s.failed[h] = nextRetry
 	}
 }
@@ -112,6 +117,9 @@ func (s *coordinatorState) handleRetryResult(res result) {
 	// retry workers later
 	for h := range res.failed {
 		lastRetry := s.inRetry[h]
+		if f, ok := s.failed[h]; ok && f.count > lastRetry.count {
+			lastRetry = f
+		}
 		// height will be retried after backoff
 		nextRetry, retryExceeded := s.retryStrategy.nextRetry(lastRetry, time.Now())
 		if retryExceeded {
